@@ -226,7 +226,7 @@ theorem lockSetNX_some {st : RStore} {k tok : Nat} {c : LockCell} (h : st.locks[
 
 theorem lockSetNX_none {st : RStore} {k tok : Nat} (h : st.locks[k]? = none) :
     st.lockSetNX k tok = ({ st.touchLock k (some tok) with locks := st.locks.insert k ⟨tok, true⟩ }, true) := by
-  simp [lockSetNX, h]
+  simp [lockSetNX, h, leaseHasTTL_eq]
 
 theorem lockDel_none {st : RStore} {k : Nat} (h : st.locks[k]? = none) : st.lockDel k = st := by
   simp [lockDel, h]
@@ -238,13 +238,19 @@ theorem lockDel_some {st : RStore} {k : Nat} {c : LockCell} (h : st.locks[k]? = 
 theorem lockExpire_none {st : RStore} {k : Nat} {d : Bool} (h : st.locks[k]? = none) : st.lockExpire k d = st := by
   simp [lockExpire, h]
 
-theorem lockExpire_some_dirty {st : RStore} {k : Nat} {c : LockCell} (h : st.locks[k]? = some c) :
+/-- (statement changed with the model: the expiry acts only on a cell that carries a TTL) -/
+theorem lockExpire_some_dirty {st : RStore} {k : Nat} {c : LockCell} (h : st.locks[k]? = some c) (ht : c.ttl = true) :
     st.lockExpire k true = { st.touchLock k none with locks := st.locks.erase k } := by
-  simp [lockExpire, h]
+  simp [lockExpire, h, ht]
 
-theorem lockExpire_some_clean {st : RStore} {k : Nat} {c : LockCell} (h : st.locks[k]? = some c) :
+theorem lockExpire_some_clean {st : RStore} {k : Nat} {c : LockCell} (h : st.locks[k]? = some c) (ht : c.ttl = true) :
     st.lockExpire k false = { st with locks := st.locks.erase k } := by
-  simp [lockExpire, h]
+  simp [lockExpire, h, ht]
+
+/-- a cell without TTL is not touched by the expiry event -/
+theorem lockExpire_some_nottl {st : RStore} {k : Nat} {c : LockCell} {d : Bool} (h : st.locks[k]? = some c)
+    (ht : c.ttl = false) : st.lockExpire k d = st := by
+  simp [lockExpire, h, ht]
 
 end RStore
 
@@ -535,10 +541,13 @@ theorem inv_expire {s : Sys} (h : Inv s) (k : Nat) : Inv (s.step (.expire k)) :=
   cases hl : s.store.locks[k]? with
   | none => rw [RStore.lockExpire_none hl]; exact h
   | some c =>
+    cases ht : c.ttl with
+    | false => rw [RStore.lockExpire_some_nottl hl ht]; exact h
+    | true =>
     cases hd : s.dirties with
     | true =>
       rw [hd] at hcl
-      rw [RStore.lockExpire_some_dirty hl] at hcl ⊢
+      rw [RStore.lockExpire_some_dirty hl ht] at hcl ⊢
       refine inv_of_storeRel h 0 (StoreRel.touch _ _ _ _) (Nat.le_refl _) ?_ ?_ hcl
       · intro k' t ht
         have ht' : (s.store.touchLock k none).lastOf k' = some t := ht
@@ -557,7 +566,7 @@ theorem inv_expire {s : Sys} (h : Inv s) (k : Nat) : Inv (s.step (.expire k)) :=
           exact h.valLast k' c' hk''
     | false =>
       rw [hd] at hcl
-      rw [RStore.lockExpire_some_clean hl] at hcl ⊢
+      rw [RStore.lockExpire_some_clean hl ht] at hcl ⊢
       refine inv_of_storeRel h 0 (StoreRel.locksOnly _ _) (Nat.le_refl _) ?_ ?_ hcl
       · exact h.lastLt
       · intro k' c' hk'
@@ -827,7 +836,9 @@ theorem lockDel_rows (st : RStore) (k : Nat) : (st.lockDel k).RowsEq st := by
 theorem lockExpire_rows (st : RStore) (k : Nat) (d : Bool) : (st.lockExpire k d).RowsEq st := by
   unfold lockExpire; split
   · exact RowsEq.refl _
-  · split <;> exact ⟨rfl, rfl, rfl, rfl⟩
+  · split
+    · split <;> exact ⟨rfl, rfl, rfl, rfl⟩
+    · exact RowsEq.refl _
 
 end RStore
 
